@@ -230,6 +230,13 @@ func GenSProgram(t *rapid.T, cfg SGenCfg) SProgram {
 			p.Ops = append(p.Ops, SOp{K: "remove", Node: n}, SOp{K: "reconnect", Node: n}, SOp{K: "addresize", Node: n, N: int64(add)})
 			blocks += add
 			total = int64(blocks) * 8
+		case "addwrite":
+			n := rapid.IntRange(0, nodes-1).Draw(t, "node")
+			p.Ops = append(p.Ops, SOp{K: "remove", Node: n}, SOp{K: "reconnect", Node: n},
+				SOp{K: "addwrite", Node: n, Off: rapid.Int64Range(0, total-1).Draw(t, "off"), Seed: rapid.IntRange(1, 250).Draw(t, "seed")})
+			if rapid.IntRange(0, 2).Draw(t, "promote") > 0 {
+				p.Ops = append(p.Ops, SOp{K: "promote", Node: n})
+			}
 		case "iorace":
 			off := rapid.Int64Range(0, total-1).Draw(t, "off")
 			p.Ops = append(p.Ops, SOp{K: "iorace", Node: rapid.IntRange(0, nodes-1).Draw(t, "node"), Off: off / 8 * 8,
